@@ -591,5 +591,3 @@ func writeEvidence(prop, tier string, seed int, spec CheckSpec, results []*JobRe
 }
 
 func round1(f float64) float64 { return float64(int(f*10+0.5)) / 10 }
-
-func generateBindings(module, scratch string) (map[string]string, error) { return nil, nil }
